@@ -165,8 +165,11 @@ Definition print_pqr (whitespace is_cif : bool) (lines : list string) : string :
 
 (* the non-empty chunks written to the file; with --whitespace each chunk is
    one line of the file *)
-Definition file_chunks (whitespace is_cif : bool) (lines : list string) : list string :=
+Definition written_chunks (whitespace is_cif : bool) (lines : list string) : list string :=
   filter (fun s => negb (is_empty s)) (map (write_line whitespace is_cif) lines).
+
+Definition file_chunks (whitespace is_cif : bool) (lines : list string) : list string :=
+  (written_chunks whitespace is_cif lines ++ (if is_cif then [("#" ++ nl)%string] else []))%list.
 
 (* ---- int() / float() on a whitespace-free ASCII token --------------------- *)
 
@@ -558,3 +561,25 @@ Definition show_read (r : list patom + presult) : string :=
   | inl l => join nl (map (fun a => show_presult (PAtom a)) l)
   | inr e => show_presult e
   end.
+
+Definition show_fl (f : fl) : string :=
+  match f with FNum p => show_pf p | FNot => "NOT" | FUnsup => "UNSUP" end.
+
+(* int(t) / float(t) of one token *)
+Definition show_token (t : string) : string := show_oz (py_int t) ++ "/" ++ show_fl (py_float t).
+
+(* everything the harness compares for one atom *)
+Definition sep2 : string := "@@".
+Definition show_atom_case (a : atom) : string :=
+  join sep2 [pqr_string false a; pqr_string true a; ws_line false a; ws_line true a;
+             show_presult (from_pqr_line (ws_line false a));
+             show_presult (from_pqr_line (ws_line true a));
+             show_fatom (read_fixed (pqr_string false a));
+             show_fatom (read_fixed (pqr_string true a))].
+
+(* print_biomolecule_atoms + print_pqr + read_pqr on an atom list *)
+Definition show_file_case (chainflag whitespace is_cif : bool) (l : list atom) : string :=
+  join sep2 [String.concat "" (print_atoms chainflag l);
+             print_pqr whitespace is_cif (print_atoms chainflag l);
+             show_read (read_pqr (file_chunks whitespace is_cif (print_atoms chainflag l)))].
+
